@@ -25,7 +25,6 @@ import json
 import os
 import random
 import re
-import shutil
 import sys
 import time
 
@@ -558,7 +557,7 @@ def run(tier, seed, only=None):
             info = progs[pid]
             d, obs_class = classify(rec, got, info, cname)
             cls_count[obs_class] += 1
-            rep.disagree(d, obs_class, {"source": "\n".join(mods_render(mods, info)), "word": rec["word"], "config": cname,
+            rep.disagree(d, obs_class, {"source": "\n".join(ld.render(info["prog"], info["fname"], info["vk"]).lines), "word": rec["word"], "config": cname,
                                         "vkinds": info["vk"], "spec [log, outcome]": [rec["log"], rec["xout"]],
                                         "compiled [log, outcome]": got, "fact_verdicts": rec["fv"], "program": strip(info["prog"]),
                                         "family": info["family"]})
@@ -666,10 +665,6 @@ def run(tier, seed, only=None):
                                      "leaves bindings of failed matches unspecified)"],
                         violations=rep.n_violations())
     return rc
-
-
-def mods_render(mods, info):
-    return ld.render(info["prog"], info["fname"], info["vk"]).lines
 
 
 class ReplayReporter(object):
